@@ -213,17 +213,19 @@ RRs == << RR("CNAME", BCOM, "", <<>>, <<>>), RR("CNAME", CCOM, "", <<>>, <<>>),
           RR("HTTPS", <<>>, "", <<"i1">>, <<>>), RR("HTTPS", <<>>, "", <<"i2">>, <<"i6">>),
           RR("TXT", <<>>, "", <<>>, <<>>) >>
 NRR == Len(RRs)
-\* all answer sections of length 0..3, as sequences of indices into RRs
-AnsIx == {<<>>} \cup {<<a>> : a \in 1..NRR} \cup {<<a, b>> : a \in 1..NRR, b \in 1..NRR}
-           \cup {<<a, b, c>> : a \in 1..NRR, b \in 1..NRR, c \in 1..NRR}
-AnsOf(ix) == [k \in DOMAIN ix |-> RRs[ix[k]]]
-\* a fixed enumeration order for the table
-AnsKey(ix) == CASE Len(ix) = 0 -> 0
-                [] Len(ix) = 1 -> ix[1]
-                [] Len(ix) = 2 -> NRR + (ix[1] - 1) * NRR + ix[2]
-                [] OTHER       -> NRR + NRR * NRR + ((ix[1] - 1) * NRR + (ix[2] - 1)) * NRR + ix[3]
+\* all answer sections of length 0..3, as sequences of indices into RRs, in a
+\* fixed enumeration order (the table of a configuration is indexed by it)
 NAns == 1 + NRR + NRR * NRR + NRR * NRR * NRR
-AnsSeq == [k \in 1..NAns |-> CHOOSE ix \in AnsIx : AnsKey(ix) = k - 1]
+AnsIxOf(j) ==
+    IF j = 0 THEN <<>>
+    ELSE IF j <= NRR THEN <<j>>
+    ELSE IF j <= NRR + NRR * NRR
+         THEN LET t == j - NRR - 1 IN <<(t \div NRR) + 1, (t % NRR) + 1>>
+         ELSE LET t == j - NRR - NRR * NRR - 1
+              IN <<(t \div (NRR * NRR)) + 1, ((t \div NRR) % NRR) + 1, (t % NRR) + 1>>
+AnsSeq == [k \in 1..NAns |-> AnsIxOf(k - 1)]
+AnsIx  == {AnsSeq[k] : k \in 1..NAns}
+AnsOf(ix) == [k \in DOMAIN ix |-> RRs[ix[k]]]
 QTypes02 == <<"A", "HTTPS", "AAAA">>
 
 IPRule(id, kind, pat, tok, imp, da) ==
